@@ -699,6 +699,8 @@ def gen_case(rng, tier, shard, nshards):
         n = int(rng.integers(3000, 20000))        # long vectors: blocked / pairwise / parallel code paths only show there
     cls = pick(rng, CLASSES)
     mag = 10.0 ** rng.uniform(-3, 6)
+    if rng.random() < 0.08:
+        mag = 10.0 ** rng.uniform(-12, -3)      # small units (seconds at nanosecond resolution): every sum of squares is tiny
     want_int = cls in ('int', 'int-near')
     x, xpat = gen_x(rng, n, want_int)
     if cls == 'rand':
